@@ -24,9 +24,10 @@ TRUSTED = ['correspondence harness (pv.engine, pv.proto) and the generators / de
            'Lean driver parser (PygModel/Basic.lean, EqDriver.lean)']
 ASSUMPTIONS = ['CPython == on None/bool/int/float/str/datetime/date and on lists/tuples/dicts of them is the reference function Cell.pyEq / pyEqV (sampled by the pyeq op)',
                'numpy scalars and pd.Timestamp are == to the python values the wire format identifies them with; np.datetime64 scalars are not generated (day-resolution datetime64 == date and == Timestamp although Timestamp != date, so python == itself is not transitive there)',
-               'np.vectorize(eq) visits every cell of two equally shaped arrays; pd.Index == pd.Index is elementwise and raises on different lengths; index/column labels are NaN-free',
+               'np.vectorize(eq) visits every cell of two equally shaped arrays; list(pd.Index) yields the labels as the python / pandas scalars the wire format spells (a NaN among datetime labels is NaT, which the model treats as the NaN label it is spelled as)',
                'object identity (the `x is y` shortcut) is not modelled: every call decodes fresh objects; the shared np.nan object is generated (NF:nan)',
-               'dict keys are distinct strings; pandas extension arrays, NaT, np.float32 and Series names are outside the universe']
+               'numbers are spelled exactly (ints of any size, floats that are multiples of 1/4 - 2**53 and its neighbours included); np.float32 scalars and arrays hold such values exactly',
+               'dict keys are distinct strings; pandas extension arrays, NaT cells, complex / Decimal NaN, None labels and Series names are outside the universe']
 
 D = datetime.datetime
 BIG = 2 ** 53
@@ -114,29 +115,46 @@ def dec(x):
         return a.reshape(shape)
     if head == 'S':
         idx, cells = [dec_cell(i) for i in rest[0]], [dec(c) for c in rest[1:]]
-        s = pd.Series(_column(cells), index=pd.Index(idx) if idx else pd.Index([], dtype=object))
+        s = pd.Series(_column(cells), index=_index(idx))
         return s
     if head == 'DF':
         idx, cols = [dec_cell(i) for i in rest[0]], [dec_cell(c) for c in rest[1]]
         cells = [dec(c) for c in rest[2:]]
         n, m = len(idx), len(cols)
-        data = {j: _column([cells[i * m + j] for i in range(n)]) for j in range(m)}
-        df = pd.DataFrame(data, index=pd.Index(idx) if idx else pd.Index([], dtype=object))
-        df.columns = pd.Index(cols) if cols else pd.Index([], dtype=object)
+        # eq reads a frame through ONE ndarray (np.vectorize): a float column next to an int column makes that array float64 and
+        # rounds ints beyond 2**53, so such a frame is not the value the wire spells - its columns stay objects instead
+        mixed = _lossy(cells)
+        data = {j: _column([cells[i * m + j] for i in range(n)], mixed) for j in range(m)}
+        df = pd.DataFrame(data, index=_index(idx))
+        df.columns = _index(cols)
         return df
     raise ValueError('bad node head %r' % (head,))
 
 
-def _column(cells):
+def _index(labels):
+    """the axis labels as a pd.Index; a float64 index would round big ints that stand next to floats: then the labels stay objects"""
+    if not labels:
+        return pd.Index([], dtype=object)
+    if any(isinstance(c, float) for c in labels) and any(isinstance(c, int) and not isinstance(c, bool) and abs(c) >= 2 ** 53 for c in labels):
+        return pd.Index(labels, dtype=object)
+    return pd.Index(labels)
+
+
+def _lossy(cells):
+    return (any(isinstance(c, float) for c in cells) and
+            any(isinstance(c, int) and not isinstance(c, bool) and abs(c) >= 2 ** 53 for c in cells))
+
+
+def _column(cells, as_objects=False):
     """a pandas column from decoded cells: containers are stored as objects, never expanded"""
-    if any(isinstance(c, (list, tuple, dict, np.ndarray, pd.Series, pd.DataFrame)) for c in cells):
+    if as_objects or any(isinstance(c, (list, tuple, dict, np.ndarray, pd.Series, pd.DataFrame)) for c in cells):
         a = np.empty(len(cells), dtype=object)
         for i, c in enumerate(cells):
             a[i] = c
         return a
     if not cells:
         return np.array([], dtype=float)
-    if any(isinstance(c, float) for c in cells) and any(isinstance(c, int) and not isinstance(c, bool) and abs(c) >= 2 ** 53 for c in cells):
+    if _lossy(cells):
         a = np.empty(len(cells), dtype=object)     # a float column would round the big ints: keep the cells as they are spelled
         for i, c in enumerate(cells):
             a[i] = c
